@@ -167,7 +167,12 @@ def receive_once(cf, fields, data, M, pc_id, groups, reception, ts_name, frag_so
             tmpdir = tempfile.mkdtemp(prefix='vf_c07_')
             ae = pynetdicom2.ClientStorageAE(tmpdir, 'VERIF')
             store, cb = frozenset([sop_class]), ae.get_file
-        dec = fsm.DIMSEDecoder(ctxs, store, cb)
+        try:
+            dec = fsm.DIMSEDecoder(ctxs, store, cb)
+        except TypeError as exc:
+            # (the reassembler this property is anchored in is not constructed as (contexts, file classes, callback)
+            #  in this tree: the machinery cannot drive it - not a verdict about the property)
+            raise HarnessError('fsm.DIMSEDecoder cannot be constructed as anchored: %r' % (exc,))
         last_needed = len(frags) - 1
         for gi, (a, b) in enumerate(groups):
             raw = refpdu.enc_pdu({'t': 4, 'r': 0, 'pdvs': frags[a:b]})
@@ -362,9 +367,12 @@ def run_sequences(ctx, thorough=False):
     from pydicom import uid
     FIND = '1.2.840.10008.5.1.4.1.2.1.1'
     kinds = ('file', 'mem', 'none')
-    ctxs = {1: asceprovider.PContextDef(1, uid.UID(convs.VERIF_UID), uid.UID(convs.IMPLICIT)),
+    # (the storage class was accepted in three contexts, one per transfer syntax: messages arrive on the middle one)
+    ctxs = {7: asceprovider.PContextDef(7, uid.UID(SOP), uid.UID(TS['explicit'])),
+            1: asceprovider.PContextDef(1, uid.UID(convs.VERIF_UID), uid.UID(convs.IMPLICIT)),
             3: asceprovider.PContextDef(3, uid.UID(SOP), uid.UID(convs.IMPLICIT)),
-            5: asceprovider.PContextDef(5, uid.UID(FIND), uid.UID(convs.IMPLICIT))}
+            5: asceprovider.PContextDef(5, uid.UID(FIND), uid.UID(convs.IMPLICIT)),
+            9: asceprovider.PContextDef(9, uid.UID(SOP), uid.UID(TS['big']))}
     lengths = (2, 3, 4) if thorough else (2, 3)
     for n in lengths:
         for combo in itertools.product(kinds, repeat=n):
@@ -420,6 +428,13 @@ def run_sequences(ctx, thorough=False):
                         g_, e_, vr, ln, val = struct.unpack('<HH2sHI', content[132:144])
                         got = content[144 + val:]
                         was_file = True
+                        import pydicom
+                        meta_ts = str(pydicom.dcmread(io.BytesIO(content[:144 + val]), force=False).file_meta.TransferSyntaxUID)
+                        if meta_ts != convs.IMPLICIT:
+                            ctx.fail('C07:sequence:file-ts', 'message %d of %r arrived on context 3 (%s); the file it was received '
+                                     'into says %s (the class was also accepted on contexts 7 and 9 with other syntaxes)'
+                                     % (i + 1, combo, convs.IMPLICIT, meta_ts), case)
+                            break
                     else:
                         was_file = False
                     if pc_id != pc or msg.command_field != fields[0x0100] or (got or None) != (data or None) or \
@@ -541,14 +556,21 @@ def run(ctx):
     # (the long association runs beside the exhaustive part: 1.1 GiB in the quick tier, 2^32 bytes and more in the thorough one)
     parallel(ctx, shard_long, [{'total': (9 << 29) if ctx.thorough else (1 << 30) + (1 << 26)}] if not ctx.thorough
              else [{'total': 9 << 29}, {'total': (1 << 31) + (1 << 26)}], procs=2)
-    parallel(ctx, run_exhaustive, [{'indices': idx[i::16], 'maxfrag': maxfrag} for i in range(16)])
-    run_real(ctx)
-    run_tiny(ctx)
+    # the parts that drive the reassembler directly (its constructor is an internal interface): if that interface is
+    # not there in this tree they cannot run, the parts that go through the provider still can - and if those find
+    # nothing the run is reported as a harness error (exit 2), not as 'held'
+    skipped = []
+    for part in (lambda: parallel(ctx, run_exhaustive, [{'indices': idx[i::16], 'maxfrag': maxfrag} for i in range(16)]),
+                 lambda: run_real(ctx), lambda: run_tiny(ctx),
+                 lambda: (parallel(ctx, shard_random, [{'n': 5000} for _ in range(16)]) if ctx.thorough
+                          else run_random(ctx, 500))):
+        try:
+            part()
+        except HarnessError as exc:
+            skipped.append(exc)
     run_sequences(ctx, ctx.thorough)
-    if ctx.thorough:
-        parallel(ctx, shard_random, [{'n': 5000} for _ in range(16)])
-    else:
-        run_random(ctx, 500)
+    if skipped and not ctx.failures:
+        raise skipped[0]
 
 
 def replay(case):
